@@ -200,9 +200,48 @@ func runC05(c *Ctx) {
 		return true, ""
 	}
 	nw := 0
+	// the style attribute code: every function of the package reachable (static callees, closures) from the exported entry point
+	styleFns := map[*ssa.Function]bool{}
+	if entry := rsp.Func("SanitizeStyleAttributeValues"); entry != nil {
+		work := []*ssa.Function{entry}
+		for len(work) > 0 {
+			fn := work[len(work)-1]
+			work = work[:len(work)-1]
+			if fn == nil || styleFns[fn] || fn.Blocks == nil || fn.Pkg != rsp {
+				continue
+			}
+			styleFns[fn] = true
+			work = append(work, fn.AnonFuncs...)
+			for _, b := range fn.Blocks {
+				for _, ins := range b.Instrs {
+					if ci, ok := ins.(ssa.CallInstruction); ok {
+						if cal := ci.Common().StaticCallee(); cal != nil {
+							work = append(work, cal)
+						}
+					}
+					// functions taken as values (passed to helpers)
+					for _, op := range ins.Operands(nil) {
+						if op != nil && *op != nil {
+							if f2, ok := (*op).(*ssa.Function); ok {
+								work = append(work, f2)
+							}
+							if mc, ok := (*op).(*ssa.MakeClosure); ok {
+								if f2, ok := mc.Fn.(*ssa.Function); ok {
+									work = append(work, f2)
+								}
+							}
+						}
+					}
+				}
+			}
+		}
+	} else {
+		c.viol("C05.R3", "anchor-lost:SanitizeStyleAttributeValues", "", "runtime.SanitizeStyleAttributeValues (exported, called by generated code) not found")
+	}
+	c.count("style_attribute_functions", len(styleFns))
 	for _, fn := range ssaFuncs(c.prog, rsp) {
 		name := ssaFuncName(fn)
-		if !strings.Contains(strings.ToLower(fn.Name()), "style") && !strings.HasPrefix(fn.Name(), "process") && !strings.HasPrefix(fn.Name(), "handle") {
+		if !styleFns[fn] {
 			continue
 		}
 		ord := 0
